@@ -2,7 +2,6 @@
 package jsonSubProto
 
 import (
-	"bytes"
 	"encoding/json"
 	"fmt"
 	"io/ioutil"
@@ -36,7 +35,7 @@ func (j *jsonSubProto) Version() (byte, string) {
 	return j.id, j.name
 }
 
-const format = `{"seq":%d,"mtype":%d,"serviceMethod":%q,"meta":%q,"bodyCodec":%d,"body":"%s","xferPipe":%s}`
+const format = `{"seq":%d,"mtype":%d,"serviceMethod":"%s","meta":%q,"bodyCodec":%d,"body":"%s","xferPipe":%s}`
 
 // Pack writes the Message into the connection.
 // NOTE: Make sure to write only once or there will be package contamination!
@@ -65,10 +64,10 @@ func (j *jsonSubProto) Pack(m erpc.Message) error {
 	s := fmt.Sprintf(format,
 		m.Seq(),
 		m.Mtype(),
-		m.ServiceMethod(),
+		appendEscaped(nil, goutil.StringToBytes(m.ServiceMethod())),
 		m.Meta().QueryString(),
 		m.BodyCodec(),
-		bytes.Replace(bodyBytes, []byte{'"'}, []byte{'\\', '"'}, -1),
+		appendEscaped(nil, bodyBytes),
 		xferPipeIDsBytes,
 	)
 
@@ -78,6 +77,25 @@ func (j *jsonSubProto) Pack(m erpc.Message) error {
 
 	_, err = j.rw.Write(b)
 	return err
+}
+
+// appendEscaped appends src as the content of a JSON string literal: the quote that
+// would end the literal, the backslash that would start an escape sequence and the
+// control characters (which end the string for the decoder) are escaped; every
+// other byte is kept as it is.
+func appendEscaped(dst, src []byte) []byte {
+	const hex = "0123456789abcdef"
+	for _, c := range src {
+		switch {
+		case c == '"' || c == '\\':
+			dst = append(dst, '\\', c)
+		case c < ' ':
+			dst = append(dst, '\\', 'u', '0', '0', hex[c>>4], hex[c&0xf])
+		default:
+			dst = append(dst, c)
+		}
+	}
+	return dst
 }
 
 // Unpack reads bytes from the connection to the Message.
